@@ -1,0 +1,12 @@
+//go:build verif
+
+package profile
+
+// GenvarHook, when set, observes every identifier handed out by Genvar.
+var GenvarHook func(hint string, value int)
+
+func genvarTrace(hint string, value int) {
+	if h := GenvarHook; h != nil {
+		h(hint, value)
+	}
+}
